@@ -60,6 +60,8 @@ def kernel_side_strategy():
             max_terminals=3,
             types=["AnalogOutput", "DigitalOutput", "AnalogOutput",
                    "Custom", "AnalogInput"]),
+        "aerotech": st.lists(st.sampled_from([False, False, True]),
+                             min_size=3, max_size=3),
         "counter": st.sampled_from([0, 1, 2, 3, 254, 255])
         | st.integers(0, 2**32 - 1),
         "registered": st.sampled_from([True, True, True, False]),
